@@ -1144,6 +1144,7 @@ func Run(ctx *common.Ctx) {
 	header := "From Coq Require Import List ZArith String.\nFrom C08 Require Import Model Spec Corr.\nImport ListNotations.\nOpen Scope string_scope.\nOpen Scope list_scope.\n"
 	footer := "Definition res := Eval vm_compute in check_all cases.\nPrint res.\nDefinition gcount := Eval vm_compute in guard_count cases.\nPrint gcount.\nDefinition outside := Eval vm_compute in outside_count cases.\nPrint outside.\nDefinition deviations := Eval vm_compute in deviation_count cases.\nPrint deviations.\nDefinition lookuplate := Eval vm_compute in late_count cases.\nPrint lookuplate.\n"
 	ctx.WriteShards("cases", header, "case", footer, terms, descs, 16)
+	runInherit(ctx)
 	ctx.ReplayKnownLisp()
 }
 
